@@ -104,6 +104,11 @@ pub trait Property: Sync {
     fn also_release(&self) -> bool {
         false
     }
+    /// a case that provably does not terminate (confirmed in fresh processes) is a violation of this
+    /// property (C02: "never a hang"); elsewhere it makes the check inconclusive (exit 2)
+    fn hang_is_violation(&self) -> bool {
+        false
+    }
     /// extra work done by the driver after the workers (e.g. libFuzzer campaign); returns extra coverage keys
     fn post(&self, _tier: Tier, _seed: u64, _root: &Path) -> Result<Value, Failure> {
         Ok(Value::Null)
@@ -727,6 +732,115 @@ fn child_run_tape(profile: &str, prop: &str, tier: Tier, tape: &[u8], timeout: D
     (false, None, err)
 }
 
+/// Outcome of a supervised child: finished (status, stdout, stderr) or hung past the timeout (step name).
+enum Supervised {
+    Finished(std::process::ExitStatus, String, String),
+    Hung(String),
+}
+
+/// Ask a hung child which step it is in: SIGSEGV runs the fatal-signal handler, which prints the step
+/// and dies; SIGKILL afterwards in case the handler is not reached.
+fn interrogate_and_kill(c: &mut std::process::Child) {
+    unsafe {
+        libc::kill(c.id() as libc::pid_t, libc::SIGSEGV);
+    }
+    let t = Instant::now();
+    while t.elapsed() < Duration::from_secs(3) {
+        if let Ok(Some(_)) = c.try_wait() {
+            return;
+        }
+        std::thread::sleep(Duration::from_millis(10));
+    }
+    let _ = c.kill();
+    let _ = c.wait();
+}
+
+fn step_of(stderr: &str) -> String {
+    stderr.lines().rev().find_map(|l| l.split("EPVERIF-SIGNAL step=").nth(1)).map(|s| s.trim().split('(').next().unwrap_or("").to_string()).unwrap_or_default()
+}
+
+fn supervise(mut cmd: Command, timeout: Duration, tag: &str) -> Supervised {
+    let dir = std::env::temp_dir();
+    let uniq = format!("epverif-{}-{}-{}", std::process::id(), tag, Instant::now().elapsed().as_nanos() as u64 ^ (std::time::SystemTime::now().duration_since(std::time::UNIX_EPOCH).map(|d| d.as_nanos() as u64).unwrap_or(0)));
+    let (po, pe) = (dir.join(format!("{uniq}.out")), dir.join(format!("{uniq}.err")));
+    let mut c = cmd
+        .stdin(Stdio::null())
+        .stdout(Stdio::from(std::fs::File::create(&po).expect("tmp out")))
+        .stderr(Stdio::from(std::fs::File::create(&pe).expect("tmp err")))
+        .spawn()
+        .expect("spawn");
+    let t0 = Instant::now();
+    let mut hung = false;
+    let status = loop {
+        match c.try_wait() {
+            Ok(Some(s)) => break Some(s),
+            Ok(None) => {
+                if t0.elapsed() > timeout {
+                    hung = true;
+                    interrogate_and_kill(&mut c);
+                    break None;
+                }
+                std::thread::sleep(Duration::from_millis(2));
+            }
+            Err(_) => break None,
+        }
+    };
+    let out = std::fs::read_to_string(&po).unwrap_or_default();
+    let err = String::from_utf8_lossy(&std::fs::read(&pe).unwrap_or_default()).to_string();
+    let _ = std::fs::remove_file(&po);
+    let _ = std::fs::remove_file(&pe);
+    match (hung, status) {
+        (false, Some(st)) => Supervised::Finished(st, out, err),
+        _ => Supervised::Hung(step_of(&err)),
+    }
+}
+
+/// Does this tape make a fresh child run longer than `timeout`? Some(step) if so.
+fn child_hangs(profile: &str, prop: &str, tier: Tier, tape: &[u8], timeout: Duration) -> Option<String> {
+    let mut cmd = Command::new(exe_for(profile));
+    cmd.args(["run-tape", prop, tier.name(), &hex(tape)]);
+    match supervise(cmd, timeout, "hang") {
+        Supervised::Hung(step) => Some(step),
+        Supervised::Finished(..) => None,
+    }
+}
+
+/// ddmin over the tape with "a fresh child does not finish within 5 s" as the test (cases take ms).
+fn shrink_hang_tape(profile: &str, prop: &str, tier: Tier, tape: &[u8]) -> Vec<u8> {
+    let hangs = |t: &[u8]| child_hangs(profile, prop, tier, t, Duration::from_secs(4)).is_some();
+    let mut cur = tape.to_vec();
+    let budget = Instant::now();
+    let mut n = cur.len() / 2;
+    while n > 0 && budget.elapsed() < Duration::from_secs(60) {
+        if cur.len() > n {
+            let cand = cur[..cur.len() - n].to_vec();
+            if hangs(&cand) {
+                cur = cand;
+                continue;
+            }
+        }
+        n /= 2;
+    }
+    let mut chunk = (cur.len() / 4).max(1);
+    while chunk >= 1 && budget.elapsed() < Duration::from_secs(150) {
+        let mut i = 0;
+        while i + chunk <= cur.len() && budget.elapsed() < Duration::from_secs(150) {
+            let mut cand = cur.clone();
+            cand.drain(i..i + chunk);
+            if hangs(&cand) {
+                cur = cand;
+            } else {
+                i += chunk;
+            }
+        }
+        if chunk == 1 {
+            break;
+        }
+        chunk /= 2;
+    }
+    cur
+}
+
 /// ddmin over the tape with "child crashes" as the test.
 fn shrink_crash_tape(profile: &str, prop: &str, tier: Tier, tape: &[u8]) -> Vec<u8> {
     let crashes = |t: &[u8]| child_run_tape(profile, prop, tier, t, Duration::from_secs(60)).0;
@@ -819,14 +933,26 @@ pub fn driver_main(prop: &dyn Property, tier: Tier, root: &Path) -> i32 {
     for f in &files {
         for profile in &profiles {
             regress_replayed += 1;
-            let o = Command::new(exe_for(profile))
-                .args(["replay-file", id, tier.name(), &f.to_string_lossy()])
-                .stdin(Stdio::null())
-                .output()
-                .expect("spawn replay");
-            let out = String::from_utf8_lossy(&o.stdout).to_string();
-            if let Some(sig) = signal_of(&o.status) {
-                let msg = abort_message(&String::from_utf8_lossy(&o.stderr));
+            let mut cmd = Command::new(exe_for(profile));
+            cmd.args(["replay-file", id, tier.name(), &f.to_string_lossy()]);
+            let (status, out, errs) = match supervise(cmd, Duration::from_secs(180), "regress") {
+                Supervised::Finished(st, o, e) => (st, o, e),
+                Supervised::Hung(step) => {
+                    if prop.hang_is_violation() {
+                        let signature = format!("{}|hang|{}", id, step);
+                        if known.iter().any(|k| k.property == id && k.status == "known" && k.signature == signature) {
+                            *known_hits.entry(signature).or_insert(0) += 1;
+                        } else {
+                            violations.push((signature, f.to_string_lossy().to_string()));
+                        }
+                    } else {
+                        infra_error = Some(format!("replay of {} does not finish within 180 s (step `{}`; inconclusive)", f.display(), step));
+                    }
+                    continue;
+                }
+            };
+            if let Some(sig) = signal_of(&status) {
+                let msg = abort_message(&errs);
                 let signature = format!("{}|crash|{}", id, crash_class(sig, &msg));
                 if known.iter().any(|k| k.property == id && k.status == "known" && k.signature == signature) {
                     *known_hits.entry(signature).or_insert(0) += 1;
@@ -834,7 +960,7 @@ pub fn driver_main(prop: &dyn Property, tier: Tier, root: &Path) -> i32 {
                     violations.push((signature, f.to_string_lossy().to_string()));
                 }
             } else {
-                match o.status.code() {
+                match status.code() {
                     Some(0) => {}
                     Some(4) => {
                         for l in out.lines() {
@@ -870,7 +996,10 @@ pub fn driver_main(prop: &dyn Property, tier: Tier, root: &Path) -> i32 {
     let mut samples: Vec<Value> = vec![];
     let mut worker_wall: Vec<f64> = vec![];
     let mut crashed_workers = 0u64;
+    let mut hang_confirmed = false;
+    let mut also_stalled = 0u64;
 
+    let stall_limit = Duration::from_secs(std::env::var("EPVERIF_STALL_S").ok().and_then(|s| s.parse().ok()).unwrap_or(60));
     let time_limit = Duration::from_secs(std::env::var("EPVERIF_TIME_LIMIT_S").ok().and_then(|s| s.parse().ok()).unwrap_or(tier.pick(1500, 7200)));
 
     for profile in &profiles {
@@ -900,7 +1029,13 @@ pub fn driver_main(prop: &dyn Property, tier: Tier, root: &Path) -> i32 {
             children.push(Child { shard, profile, child, out, cur, stderr_path });
         }
         for mut c in children.drain(..) {
-            // wait with global time limit
+            // wait with global time limit; a worker whose current-case record does not change for
+            // `stall_limit` is taken for hung in that case
+            let mut last_fp = 0u64;
+            let mut last_change = Instant::now();
+            let mut last_poll = Instant::now();
+            let mut stalled = false;
+            let stall_limit = if hang_confirmed { Duration::from_secs(5) } else { stall_limit };
             let status = loop {
                 match c.child.try_wait() {
                     Ok(Some(s)) => break Some(s),
@@ -910,11 +1045,75 @@ pub fn driver_main(prop: &dyn Property, tier: Tier, root: &Path) -> i32 {
                             let _ = c.child.wait();
                             break None;
                         }
+                        if last_poll.elapsed() > Duration::from_millis(500) {
+                            last_poll = Instant::now();
+                            let rec = std::fs::read(&c.cur).unwrap_or_default();
+                            let fp = crate::tape::fnv64(&rec);
+                            // generated cases take milliseconds; items of the enumerated parts may take
+                            // many seconds (e.g. C14 sums 4 GiB): ten times the limit there
+                            let in_case = rec.len() >= 4 && u32::from_le_bytes(rec[0..4].try_into().unwrap()) == 1;
+                            let limit = if in_case { stall_limit } else { stall_limit * 10 };
+                            if fp != last_fp {
+                                last_fp = fp;
+                                last_change = Instant::now();
+                            } else if last_change.elapsed() > limit {
+                                stalled = true;
+                                interrogate_and_kill(&mut c.child);
+                                break None;
+                            }
+                        }
                         std::thread::sleep(Duration::from_millis(20));
                     }
                     Err(_) => break None,
                 }
             };
+            if stalled && hang_confirmed {
+                // one non-terminating case was analysed already; further stuck workers are only counted
+                also_stalled += 1;
+                continue;
+            }
+            if stalled {
+                let stderr = std::fs::read_to_string(&c.stderr_path).unwrap_or_default();
+                let step0 = step_of(&stderr);
+                match read_cur(&c.cur) {
+                    CurRecord::Tape(tape, counter) => {
+                        cases += counter;
+                        // confirm in a fresh process with a generous limit (a case takes milliseconds)
+                        if child_hangs(c.profile, id, tier, &tape, Duration::from_secs(40)).is_some() {
+                            hang_confirmed = true;
+                            let small = shrink_hang_tape(c.profile, id, tier, &tape);
+                            let step = child_hangs(c.profile, id, tier, &small, Duration::from_secs(40));
+                            let (small, step) = match step {
+                                Some(s2) => (small, s2),
+                                None => (tape.clone(), step0.clone()),
+                            };
+                            if prop.hang_is_violation() {
+                                let signature = format!("{}|hang|{}", id, step);
+                                let v = json!({
+                                    "property": id, "seed": seed, "signature": signature,
+                                    "oracle_clause": "every call terminates",
+                                    "detail": format!("a fresh process ({} profile) given this case alone does not finish within 40 s (cases take milliseconds); it was in step `{}` when interrupted", c.profile, step),
+                                    "input": {"tape_hex": hex(&small)},
+                                    "derived_input": prop.describe(&small),
+                                    "profile": c.profile,
+                                });
+                                if known.iter().any(|k| k.property == id && k.status == "known" && k.signature == signature) {
+                                    *known_hits.entry(signature).or_insert(0) += 1;
+                                } else {
+                                    let p = write_replay(root, id, &v);
+                                    violations.push((signature, p.to_string_lossy().to_string()));
+                                }
+                            } else {
+                                infra_error = Some(format!("worker {} ({}) hung in step `{}`; the case (tape {}) also hangs a fresh process for 40 s - non-termination is C02's subject, this check is inconclusive", c.shard, c.profile, step, hex(&small)));
+                            }
+                        } else {
+                            infra_error = Some(format!("worker {} ({}) made no progress for {:?} in step `{}` but its case finishes in a fresh process (inconclusive)", c.shard, c.profile, stall_limit, step0));
+                        }
+                    }
+                    _ => infra_error = Some(format!("worker {} ({}) made no progress for {:?} outside a generated case (step `{}`; inconclusive)", c.shard, c.profile, stall_limit, step0)),
+                }
+                continue;
+            }
             let Some(status) = status else {
                 infra_error = Some(format!("worker {} ({}) exceeded the time limit of {:?} (inconclusive)", c.shard, c.profile, time_limit));
                 continue;
@@ -1052,6 +1251,7 @@ pub fn driver_main(prop: &dyn Property, tier: Tier, root: &Path) -> i32 {
         "workers": nshards,
         "profiles": profiles,
         "crashed_workers": crashed_workers,
+        "workers_stuck_after_a_confirmed_hang": also_stalled,
         "worker_wall_s_max": worker_wall.iter().cloned().fold(0.0, f64::max),
     });
     if let Some(txt) = prop.exhaustive_claim(tier) {
@@ -1157,20 +1357,33 @@ pub fn replay_cli(prop: &dyn Property, tier: Tier, file: &Path, root: &Path) -> 
     let profiles: Vec<&'static str> = if prop.also_release() { vec!["checked", "release"] } else { vec!["checked"] };
     let mut rc = 0;
     for profile in profiles {
-        let o = Command::new(exe_for(profile))
-            .args(["replay-file", id, tier.name(), &file.to_string_lossy()])
-            .stdin(Stdio::null())
-            .output()
-            .expect("spawn replay");
-        let out = String::from_utf8_lossy(&o.stdout).to_string();
-        if let Some(sig) = signal_of(&o.status) {
-            let msg = abort_message(&String::from_utf8_lossy(&o.stderr));
+        let mut cmd = Command::new(exe_for(profile));
+        cmd.args(["replay-file", id, tier.name(), &file.to_string_lossy()]);
+        let (status, out, errs) = match supervise(cmd, Duration::from_secs(180), "replay") {
+            Supervised::Finished(st, o, e) => (st, o, e),
+            Supervised::Hung(step) => {
+                if prop.hang_is_violation() {
+                    println!("VIOLATION property={} replay={}", id, file.display());
+                    println!("  signature: {}|hang|{}", id, step);
+                    println!("  the replay does not finish within 180 s ({} profile); interrupted in step `{}`", profile, step);
+                    rc = 1;
+                } else {
+                    println!("INCONCLUSIVE: replay does not finish within 180 s (step `{}`)", step);
+                    if rc == 0 {
+                        rc = 2;
+                    }
+                }
+                continue;
+            }
+        };
+        if let Some(sig) = signal_of(&status) {
+            let msg = abort_message(&errs);
             println!("VIOLATION property={} replay={}", id, file.display());
             println!("  crash ({} profile): signal {} {}", profile, sig, msg);
             rc = 1;
             continue;
         }
-        match o.status.code() {
+        match status.code() {
             Some(0) => println!("replay passed ({} profile)", profile),
             Some(4) => {
                 for l in out.lines() {
